@@ -206,10 +206,25 @@ fn exec(op: &Op) -> String {
         "pattern.best" => {
             let (Some(p), Some(n1), Some(n2)) = (a(0), a(1), a(2)) else { return "BAD-UTF8".into() };
             match Pattern::new(p) {
-                Ok(pat) => match pat.best_match(n1, n2) {
-                    Some(s) => format!("some:{}", hex(s.as_bytes())),
-                    None => "none".into(),
-                },
+                Ok(pat) => {
+                    let r = pat.best_match(n1, n2).map(str::to_string);
+                    // the answer depends on the TEXT of the candidates, not on where they are stored:
+                    // ask again with both candidates borrowed from one buffer when one is a prefix
+                    // of the other
+                    let (short, long, swapped) = if n2.starts_with(n1) { (n1, n2, false) } else { (n2, n1, true) };
+                    if long.starts_with(short) {
+                        let buf = long.to_string();
+                        let (a1, a2) = (&buf[..short.len()], &buf[..]);
+                        let r2 = if swapped { pat.best_match(a2, a1) } else { pat.best_match(a1, a2) };
+                        if r2.map(str::to_string) != r {
+                            return "ALIASING-DIFFERS".into();
+                        }
+                    }
+                    match r {
+                        Some(s) => format!("some:{}", hex(s.as_bytes())),
+                        None => "none".into(),
+                    }
+                }
                 Err(_) => "err".into(),
             }
         }
@@ -306,7 +321,19 @@ fn exec(op: &Op) -> String {
                     Err(_) => return "BAD-STATE".to_string(),
                 };
                 let _ = (sum.pkgbase().map(str::len), sum.pkgversion().map(str::len));
+                // the other variables of the entry are what a real entry would carry (a PKGPATH
+                // whose directory is the name's first word, a comment that repeats the name), set
+                // before or after the name: the split looks at PKGNAME alone
+                let dir = format!("misc/{}", s.split('-').next().unwrap_or(""));
+                if s.len() % 2 == 0 {
+                    sum.set_pkgpath(&dir);
+                    sum.set_comment(s);
+                }
                 sum.set_pkgname(s);
+                if s.len() % 2 == 1 {
+                    sum.set_pkgpath(&dir);
+                    sum.set_prev_pkgpath(&dir);
+                }
                 let f = |o: Option<&str>| match o {
                     Some(x) => format!("some{}", hex(x.as_bytes())),
                     None => "none".to_string(),
